@@ -1,6 +1,7 @@
 package main
 
 import (
+	"sync/atomic"
 	"sort"
 	"sync"
 	"bytes"
@@ -823,6 +824,7 @@ func drvRegistry(c *ctx) error {
 				return err
 			}
 			c.w.Write(ob)
+			atomic.StoreInt64(&wd.lastEmit, time.Now().UnixNano()) // a child finished: progress (each child has its own watchdog)
 		}
 		return nil
 	}
